@@ -201,7 +201,10 @@ func (s *scen) report(prop string, fs []sim.Finding, extra map[string]any) {
 	}
 }
 
-func runC01(c *fw.Case) {
+func runC01(c *fw.Case) { runStrategyScenario(c, "C01") }
+
+// runStrategyScenario is the request-sequence scenario shared by C01 and the real-loop mode of C05.
+func runStrategyScenario(c *fw.Case, prop string) {
 	s := newScen(c, gen.PkgOpts{})
 	defer s.close()
 	outs := s.outputs()
@@ -233,7 +236,7 @@ func runC01(c *fw.Case) {
 				c.Count("known_hang_shape_stuck", 1)
 				return // the state directory is not comparable any more
 			}
-			c.Violation("C01/liveness/request-stuck-no-job-in-flight", "the request made no progress for 20 s with no tier2 job in flight (cancelled by the harness)", s.witness(map[string]any{"history": append(history, map[string]any{"request": spec, "jobs": res.Jobs})}))
+			c.Violation(prop+"/liveness/request-stuck-no-job-in-flight", "the request made no progress for 20 s with no tier2 job in flight (cancelled by the harness)", s.witness(map[string]any{"history": append(history, map[string]any{"request": spec, "jobs": res.Jobs})}))
 			return
 		}
 		c.Logf("  -> err=%v jobs=%+v", res.Err, res.Jobs)
@@ -243,21 +246,21 @@ func runC01(c *fw.Case) {
 		c.Count("requests", 1)
 		c.Count("tier2_jobs", int64(len(res.Jobs)))
 		if res.Err != nil {
-			c.Violation("C01/request-failed/"+fw.NormalizeMsg(res.Err.Error()), "a valid request failed: "+res.Err.Error(), s.witness(extra))
+			c.Violation(prop+"/request-failed/"+fw.NormalizeMsg(res.Err.Error()), "a valid request failed: "+res.Err.Error(), s.witness(extra))
 			return
 		}
 		fs, facts := sim.CheckStream(res, ref, false)
-		s.report("C01", fs, extra)
+		s.report(prop, fs, extra)
 		c.Count("data_messages", int64(facts.Data))
 		c.Count("nonempty_payloads_compared", int64(facts.NonEmpty))
 		c.Count("backfilled_messages", int64(facts.BelowHandoff))
 		c.Count("empty_backfilled_blocks_omitted", int64(facts.OmittedEmpty))
 		rf, compared, execs := sim.CheckReads(res.Execs, ref)
-		s.report("C01", rf, extra)
+		s.report(prop, rf, extra)
 		c.Count("store_reads_compared", int64(compared))
 		c.Count("module_executions_observed", int64(execs))
 		hf, hc := sim.CheckHandoffStores(res, ref, s.pkg)
-		s.report("C01", hf, extra)
+		s.report(prop, hf, extra)
 		c.Count("handoff_stores_compared", int64(hc))
 		if c.Violated() {
 			return
@@ -283,7 +286,7 @@ func runC01(c *fw.Case) {
 			continue
 		}
 		af, facts := s.cl.AuditCache(ref, s.pkg)
-		s.report("C01", af, map[string]any{"history": history, "audited_against_output": out})
+		s.report(prop, af, map[string]any{"history": history, "audited_against_output": out})
 		c.Count("audited_kv_files", int64(facts.KV))
 		c.Count("audited_output_files", int64(facts.Output+facts.StoreOutput))
 		c.Count("audited_index_files", int64(facts.Index))
